@@ -1846,6 +1846,18 @@ def str_replace(m, a, ci):
     return out
 
 
+@reg('ptr::eq', 'std::ptr::eq', 'core::ptr::eq')
+def ptr_eq(m, a, ci):
+    """address identity of two references: same model object (syntax nodes carry a unique id)"""
+    x = m.load(a[0]) if isinstance(a[0], Ref) else a[0]
+    y = m.load(a[1]) if isinstance(a[1], Ref) else a[1]
+    if hasattr(x, 'nid') and hasattr(y, 'nid'):
+        return x.nid == y.nid
+    if isinstance(a[0], Ref) and isinstance(a[1], Ref):
+        return a[0].frame is a[1].frame and a[0].local == a[1].local and tuple(a[0].proj) == tuple(a[1].proj)
+    return x is y
+
+
 @reg('char::is_whitespace')
 def char_is_whitespace(m, a, ci):
     return is_ws(m.load(a[0]) if isinstance(a[0], Ref) else a[0])
